@@ -732,30 +732,37 @@ class Vector():
 		# =====================================================================
 		# FAST-PATH TYPE CHECK / PROMOTION
 		# =====================================================================
-		if updates:
+		if updates and self._dtype is not None:
 			new_values = [v for _, v in updates]
+			writes_none = any(v is None for v in new_values)
 
 			# Object dtype accepts any type - skip validation
-			if self._dtype is not None and self._dtype.kind is not object:
-				incompatible = None
+			if self._dtype.kind is not object:
+				# Every new value is examined before anything is changed: find the
+				# narrowest kind on the promotion ladder that accepts all of them
+				target_kind = self._dtype.kind
 				for val in new_values:
+					if val is None:
+						continue
 					try:
-						validate_scalar(val, self._dtype)
+						validate_scalar(val, DataType(target_kind, nullable=True))
 					except TypeError:
-						incompatible = val
-						break
+						required_kind = infer_dtype([val]).kind
+						if not self._can_promote(target_kind, required_kind):
+							raise SerifTypeError(
+								f"Cannot set {required_kind.__name__} in "
+								f"{self._dtype.kind.__name__} vector. "
+								f"Promotion not supported."
+							)
+						target_kind = required_kind
 
-				if incompatible is not None:
-					required_dtype = infer_dtype([incompatible])
-					try:
-						self._promote(required_dtype.kind)
-						underlying = self._underlying
-					except SerifTypeError:
-						raise SerifTypeError(
-							f"Cannot set {required_dtype.kind.__name__} in "
-							f"{self._dtype.kind.__name__} vector. "
-							f"Promotion not supported."
-						)
+				if target_kind is not self._dtype.kind:
+					self._promote(target_kind)
+					underlying = self._underlying
+
+			# None is accepted and makes the column nullable
+			if writes_none and not self._dtype.nullable:
+				self._dtype = self._dtype.with_nullable(True)
 		# =====================================================================
 		# MUTATE — copy-on-write + fingerprint updates
 		# =====================================================================
@@ -1052,32 +1059,30 @@ class Vector():
 		if self._dtype.kind is target_kind:
 			return
 		
-		# Allow numeric promotions: int -> float, float -> complex
-		if target_kind is float and self._dtype.kind is int:
-			old_tuple_id = id(self._underlying)
-			new_tuple = tuple(float(x) if x is not None else None for x in self._underlying)
-			_ALIAS_TRACKER.unregister(self, old_tuple_id)
-			self._underlying = new_tuple
-			_ALIAS_TRACKER.register(self, id(new_tuple))
-			self._dtype = DataType(float, nullable=self._dtype.nullable)
-		elif target_kind is complex and self._dtype.kind in (int, float):
-			old_tuple_id = id(self._underlying)
-			new_tuple = tuple(complex(x) if x is not None else None for x in self._underlying)
-			_ALIAS_TRACKER.unregister(self, old_tuple_id)
-			self._underlying = new_tuple
-			_ALIAS_TRACKER.register(self, id(new_tuple))
-			self._dtype = DataType(complex, nullable=self._dtype.nullable)
-		elif target_kind is datetime and self._dtype.kind is date:
-			old_tuple_id = id(self._underlying)
-			new_tuple = tuple(datetime.combine(x, datetime.min.time()) if x is not None else None for x in self._underlying)
-			_ALIAS_TRACKER.unregister(self, old_tuple_id)
-			self._underlying = new_tuple
-			_ALIAS_TRACKER.register(self, id(new_tuple))
-			self._dtype = DataType(datetime, nullable=self._dtype.nullable)
-		else:
+		if not self._can_promote(self._dtype.kind, target_kind):
 			# For backwards compat, raise error if trying invalid promotion
 			raise SerifTypeError(f'Cannot convert Vector from {self._dtype.kind.__name__} to {target_kind.__name__}.')
+
+		# Allowed promotions: bool -> int -> float -> complex, date -> datetime
+		if target_kind is datetime:
+			convert = lambda x: datetime.combine(x, datetime.min.time())
+		else:
+			convert = target_kind
+		old_tuple_id = id(self._underlying)
+		new_tuple = tuple(convert(x) if x is not None else None for x in self._underlying)
+		_ALIAS_TRACKER.unregister(self, old_tuple_id)
+		self._underlying = new_tuple
+		_ALIAS_TRACKER.register(self, id(new_tuple))
+		self._dtype = DataType(target_kind, nullable=self._dtype.nullable)
 		return
+
+	@staticmethod
+	def _can_promote(from_kind, to_kind):
+		""" Documented widenings only: bool -> int -> float -> complex, date -> datetime """
+		ladder = (bool, int, float, complex)
+		if from_kind in ladder and to_kind in ladder:
+			return ladder.index(from_kind) < ladder.index(to_kind)
+		return from_kind is date and to_kind is datetime
 
 	def ndims(self):
 		return len(self.shape)
